@@ -125,8 +125,21 @@ def run(ctx):
                     tgt = p.targets[0] if isinstance(p, ast.Assign) else p.target
                     if isinstance(tgt, ast.Name):
                         muts = _dict_mutations(fi.node, tgt.id)
-                        escapes = any(isinstance(r, ast.Return) and r.value is not None and tgt.id in astq.names_in(r.value) for r in astq.walk_fn(fi.node))
-                        passed = any(tgt.id in astq.names_in(c) for c in astq.calls(fi.node) if c is not p.value)
+                        # uses of the alias: reading it (copying, iterating, looking keys up) is fine; returning it, or handing it
+                        # to code that may keep or change it, is not
+                        escapes = passed = False
+                        for u in astq.walk_fn(fi.node):
+                            if not (isinstance(u, ast.Name) and u.id == tgt.id and isinstance(u.ctx, ast.Load)):
+                                continue
+                            pu = astq.parent(u)
+                            if isinstance(pu, ast.Return) and pu.value is u:
+                                escapes = True
+                            elif isinstance(pu, ast.Call) and (u in pu.args) and astq.call_text(pu) not in ("dict", "copy.copy", "copy.deepcopy", "len", "bool", "sorted", "frozenset", "list", "tuple", "set", "iter"):
+                                passed = True
+                            elif isinstance(pu, ast.keyword):
+                                passed = True
+                            elif isinstance(pu, (ast.Assign, ast.AnnAssign)) and pu.value is u:
+                                passed = True  # aliased again
                         if muts or escapes or passed:
                             bad = f"aliased as `{tgt.id}` without copy and then mutated / handed on"
                     else:
@@ -177,85 +190,46 @@ def _run_r8(ctx):
     m = ctx.model
     R8 = ctx.rule("C18-R8", "per-request overrides: the merge applies every override whose value is not None (falsy values such as False, 0, [] included) and removes a default only for None", "E5 decision rows on _merge_pool_kwargs")
     fi = m.func(f"{PM}.PoolManager._merge_pool_kwargs")
-    ov = fi.params()[0]
-    merged = None
-    for r in astq.walk_fn(fi.node):
-        if isinstance(r, _ast.Return) and isinstance(r.value, _ast.Name):
-            merged = r.value.id
-    if merged is None:
-        raise AnalysisError("_merge_pool_kwargs does not return a local dict")
+    from ..rows import GenRule, effect_rows, helper_closure
+    from ..terms import T, destruct, subterms
 
-    class MergeRule(BaseRule):
-        def __init__(self):
-            self.rows = []
-            self.iters = 0
-
-        def _close_iter(self, st):
-            if st.ts.get("iter_open"):
-                self.rows.append((st.facts.get("v", (None, None)), st.ts.get("acts", ()), st))
-
-        def for_iter(self, it, st, stmt, itv):
-            self._close_iter(st)
-            if st.ts.get("iters", 0) >= 1:
-                e = st.copy()
-                e.ts["iter_open"] = False
-                return [(e, False)]
-            self.iters += 1
-            s = st.copy()
-            s.ts["iters"] = s.ts.get("iters", 0) + 1
-            s.ts["iter_open"] = True
-            s.ts["acts"] = ()
-            s.facts.pop("v", None)
-            it.assign(s, stmt.target, AV("tuple", (AV("unk", sym="k"), AV("unk", sym="v")), truth=True, none=False))
-            e = st.copy()
-            e.ts["iter_open"] = False
-            return [(s, True), (e, False)]
-
-        def setitem(self, it, st, target, av):
-            if isinstance(target.value, _ast.Name) and target.value.id == merged:
-                st.ts["acts"] = st.ts.get("acts", ()) + (("store", av.sym),)
-
-        def delete(self, it, st, stmt):
-            for t in stmt.targets:
-                if isinstance(t, _ast.Subscript) and isinstance(t.value, _ast.Name) and t.value.id == merged:
-                    st.ts["acts"] = st.ts.get("acts", ()) + (("drop", None),)
-            return [Out("normal", st), Out("raise", st.copy(), __import__("sa.interp", fromlist=["exc"]).exc("builtins.KeyError"))]
-
-        def call(self, it, st, node, recv, pos, kw):
-            t = _ast.unparse(node.func)
-            if t in (f"{merged}.pop", f"{merged}.__delitem__"):
-                s = st.copy()
-                s.ts["acts"] = s.ts.get("acts", ()) + (("drop", None),)
-                return [Out("normal", s, UNK)]
-            if t in (f"{merged}.update", f"{merged}.setdefault", f"{merged}.__setitem__"):
-                s = st.copy()
-                s.ts["acts"] = s.ts.get("acts", ()) + ((t.rsplit(".", 1)[1], None),)
-                return [Out("normal", s, UNK)]
-            if t.endswith(".items") or t.endswith(".copy"):
-                return [Out("normal", st, AV("unk", none=False))]
-            return None
-
-    rule = MergeRule()
-    outs, it = run_function(m, fi, rule, f"{PM}.PoolManager", record_decisions=True)
-    for o in outs:
-        rule._close_iter(o.st)
-    ctx.sites(R8, rule.iters, 1, "loop over the overrides")
+    OV = "p:" + fi.params()[0]
+    rows = [r for r in effect_rows(ctx, fi, GenRule(ctx, fi.module, inline=set(helper_closure(m, [fi])) - {fi.qual}, raising={"del": "builtins.KeyError"}), f"{PM}.PoolManager") if r.returns]
+    ctx.sites(R8, len(rows), 2, "returning rows of _merge_pool_kwargs")
     seen = set()
-    for (truth, none), acts, st in rule.rows:
-        kinds = tuple(a for a, _ in acts)
-        key = (truth, none, kinds)
-        if key in seen:
-            continue
-        seen.add(key)
-        stored = ("store", "v") in acts
-        if none is True:
-            ok = kinds == ("drop",) or kinds == ()
-            why = "an override of None must only remove the default"
-        else:
-            ok = stored and "drop" not in kinds
-            why = "an override whose value is not None (e.g. False, 0, [], CERT_NONE) is not applied: the request is keyed and served as if it had not been given"
-        ctx.ob(R8, fi.qual, f"row value truthy={truth} is-None={none}: actions {kinds}", ok, "" if ok else why, witness=st.witness(), node=fi.node)
-    ctx.sites(R8, len(seen), 2, "decision rows of the merge loop")
+    n_dec = 0
+    ITEMS = T("items", OV)
+
+    def is_override_value(sym):
+        if sym == T("each1", ITEMS):
+            return True
+        op, a = destruct(sym)
+        return op in ("idx", "get") and len(a) >= 2 and a[0] == OV
+
+    for r in rows:
+        Vs = sorted({sym for sym in r.st.facts if is_override_value(sym)})
+        stores = [(e[2], e[3]) for e in r.ev if e[0] == "setitem"] + [(None, a_.split("=", 1)[1]) for e in r.ev if e[0] == "call" and e[1].endswith(".update") for a_ in e[2:] if isinstance(a_, str) and "=" in a_]
+        drops = [e for e in r.ev if e[0] == "delitem" or (e[0] == "call" and e[1].rsplit(".", 1)[-1] in ("pop", "__delitem__"))]
+        for V in Vs:
+            truth, none = r.st.facts[V]
+            stored = any(v_ == V for _, v_ in stores)
+            key = (truth, none, stored, bool(drops))
+            if key in seen:
+                continue
+            seen.add(key)
+            n_dec += 1
+            if none is True:
+                ok = not stored
+                why = "an override of None must only remove the default"
+            elif none is False:
+                ok = stored and not drops
+                why = "an override whose value is not None is not applied"
+            else:
+                ok = False
+                why = ("an override whose value is not None (e.g. False, 0, [], CERT_NONE) is not applied: the decision is taken on its truthiness - the request is keyed and served as if it had not been given"
+                       if truth is not None else "the override value is used without deciding whether it is None")
+            ctx.ob(R8, fi.qual, f"row value truthy={truth} is-None={none}: stored={stored} dropped={bool(drops)}", ok, "" if ok else why, witness=r.witness(), node=fi.node)
+    ctx.sites(R8, n_dec, 2, "decision rows of the merge on an override value")
 
 
 _run_base = run
